@@ -989,6 +989,7 @@ func (self *PathNode) SetByStr(key string, val Node, opts *Options) (bool, error
 		if N > 0 && cap(self.Next) >= N {
 			if s := getStrHash(&self.Next, key, N); s != nil {
 				s.Node = val
+				s.Next = s.Next[:0]
 				return true, nil
 			}
 		}
@@ -998,6 +999,7 @@ func (self *PathNode) SetByStr(key string, val Node, opts *Options) (bool, error
 		v := &self.Next[i]
 		if v.Path.t == PathStrKey && v.Path.str() == key {
 			v.Node = val
+			v.Next = v.Next[:0]
 			return true, nil
 		}
 	}
@@ -1059,6 +1061,7 @@ func (self *PathNode) SetByInt(key int, val Node, opts *Options) (bool, error) {
 		if N > 0 && cap(self.Next) >= N {
 			if s := getIntHash(&self.Next, uint64(key), N); s != nil {
 				s.Node = val
+				s.Next = s.Next[:0]
 				return true, nil
 			}
 		}
@@ -1068,6 +1071,7 @@ func (self *PathNode) SetByInt(key int, val Node, opts *Options) (bool, error) {
 		v := &self.Next[i]
 		if v.Path.t == PathIntKey && v.Path.int() == key {
 			v.Node = val
+			v.Next = v.Next[:0]
 			return true, nil
 		}
 	}
@@ -1087,7 +1091,7 @@ func (self *PathNode) Field(id thrift.FieldID, opts *Options) *PathNode {
 		return err
 	}
 	// fast path: use id to find the key.
-	if opts.StoreChildrenById && int(id) <= StoreChildrenByIdShreshold {
+	if opts.StoreChildrenById && int(id) <= StoreChildrenByIdShreshold && int(id) >= 0 && int(id) < len(self.Next) {
 		v := &self.Next[id]
 		if v.Path.t != 0 && v.Path.id() == id {
 			return v
@@ -1119,17 +1123,20 @@ func (self *PathNode) SetField(id thrift.FieldID, val Node, opts *Options) (bool
 		return false, err
 	}
 	// fast path: use id to find the key.
-	if opts.StoreChildrenById && int(id) <= StoreChildrenByIdShreshold {
-		v := &self.Next[id]
-		exist := v.Path.t != 0
-		v.Node = val
-		return exist, nil
+	if opts.StoreChildrenById && int(id) <= StoreChildrenByIdShreshold && int(id) >= 0 && int(id) < len(self.Next) {
+		// NOTICE: the slot may be a hole, or be used by another field if the tree was not loaded by id
+		if v := &self.Next[id]; v.Path.t == PathFieldId && v.Path.id() == id {
+			v.Node = val
+			v.Next = v.Next[:0]
+			return true, nil
+		}
 	}
 	// slow path: use linear search to find the id.
 	for i := StoreChildrenByIdShreshold; i < len(self.Next); i++ {
 		v := &self.Next[i]
 		if v.Path.t == PathFieldId && v.Path.id() == id {
 			v.Node = val
+			v.Next = v.Next[:0]
 			return true, nil
 		}
 	}
@@ -1137,6 +1144,7 @@ func (self *PathNode) SetField(id thrift.FieldID, val Node, opts *Options) (bool
 		v := &self.Next[i]
 		if v.Path.t == PathFieldId && v.Path.id() == id {
 			v.Node = val
+			v.Next = v.Next[:0]
 			return true, nil
 		}
 	}
